@@ -20,7 +20,8 @@ RULE = ("Episodes = small net with unique element names + 12-40 seeded ops: crea
         "reindex_elements (elements and groups), set_group_in_service / out_of_service, set_value_to_group, "
         "group_res_p_mw/q_mvar after a power flow. After every op the members reported for every group and element "
         "type are compared with the set model. Non-trivial = an op returned and at least one group existed; "
-        "distinct = distinct (operation family, number of groups, reference-column usage, member element types).")
+        "distinct = distinct (operation family, number of groups, reference-column usage, member element types)."
+        ' attach_to_groups, groups from shared argument lists, duplicate members, membership queries (isin_group, element_associated_groups, count_group_elements), overlapping reindex lookups, replace_* with membership transfer; a refused operation must leave the groups unchanged.')
 COMPONENTS = {"real": ["pandapower.groups, create_group, toolbox drops / reindex_elements, runpp"],
               "stub": ["GroupModel (dict group -> element type -> set of element indices)"]}
 ASSUMPTIONS = ["element names are unique (members given by reference column 'name' identify exactly one element)",
